@@ -172,7 +172,7 @@ def run(ctx):
                 "20% node-weighted (some nodes without the attribute), 30% subpath constraints, 30% ignored elements, one of 10 "
                 "option vectors (greedy, safety, min-gen-set / subgraph-scanning lower bounds, guessed weights); "
                 "non-trivial = optimum >= 2 paths; distinct by graph+arguments")
-    n = ctx.budget(420, 8000)
+    n = ctx.budget(420, 24000)
     fixed = corpus()
     for i in range(-len(fixed), n):
         if i < 0:
